@@ -23,6 +23,8 @@ class Ctx:
         return self.tier == 'quick'
 
     def impl_exe(self, variant='plain', flexgen=False):
+        if os.environ.get('VERIF_FORCE_VARIANT') and variant != 'tsan':
+            variant = os.environ['VERIF_FORCE_VARIANT']         # development: tools/coverage.py
         key = (variant, flexgen)
         if key not in self.impl:
             exe, err = vlib.build_impl(variant, flexgen=flexgen)
